@@ -106,14 +106,35 @@ def check_spec(out: Outcome, cls: str, p: dict, xs: list, runners: list, label: 
     r = dets.Runner("a", cls, p)
     if r.det is None:
         return
-    if cls == "DDM":
-        spec = ddm_spec(xs, fp["min_num_instances"], fp["warning_level"], fp["drift_level"])
-    elif cls == "EDDM":
-        spec = eddm_spec(xs, fp["alpha"], fp["beta"], fp["level"], fp["min_num_misclassified_instances"])
-    else:
-        spec = ecdd_spec(xs, fp["lambda_"], fp["average_run_length"], fp["warning_level"], fp["min_num_instances"])
+    def spec_of(seg):
+        if cls == "DDM":
+            return ddm_spec(seg, fp["min_num_instances"], fp["warning_level"], fp["drift_level"])
+        if cls == "EDDM":
+            return eddm_spec(seg, fp["alpha"], fp["beta"], fp["level"], fp["min_num_misclassified_instances"])
+        return ecdd_spec(seg, fp["lambda_"], fp["average_run_length"], fp["warning_level"], fp["min_num_instances"])
+    # "r" in a stream is a reset(): the published rule starts again on the values that follow (a history, as the property's quantifier says)
+    spec, seg = [], []
+    for x in xs + ["r"]:
+        if x == "r":
+            sp = list(spec_of(seg))
+            spec += sp
+            if len(sp) < len(seg) or (sp and sp[-1] is None):
+                break               # the rule ended at a tied comparison: the trace is compared up to there
+            spec.append("r")
+            seg = []
+        else:
+            seg.append(x)
+    if spec and spec[-1] == "r" and len(spec) > len(xs):
+        spec.pop()
     flagged = False
     for t, (x, want) in enumerate(zip(xs, spec), 1):
+        if x == "r":
+            r.reset()
+            out.count("resets_inside_streams")
+            if any(dets.flags(cls, r.det)):
+                out.violation(f"{label}{cls}: a flag is set right after reset()", {"class": cls, "params": p, "stream": xs[:t], "step": t})
+                break
+            continue
         r.update(x)
         if want is None:
             out.count("spec_traces_ended_at_tie")
@@ -125,7 +146,7 @@ def check_spec(out: Outcome, cls: str, p: dict, xs: list, runners: list, label: 
                           {"class": cls, "params": p, "stream": xs[:t], "step": t, "got": got, "want": want})
             break
     runners.append(r)
-    out.case({"class": cls, "params": p, "n": len(xs), "stream": "".join(str(int(v)) for v in xs[:64])}, nontrivial=flagged)
+    out.case({"class": cls, "params": p, "n": len(xs), "stream": "".join("r" if v == "r" else str(int(v)) for v in xs[:64])}, nontrivial=flagged)
 
 
 def check_rddm(out: Outcome, p: dict, xs: list, runners: list) -> None:
@@ -209,7 +230,12 @@ def run(out: Outcome) -> None:
     for cls in ("DDM", "EDDM", "ECDDWT"):
         for _ in range(n_rand):
             p = gen.rand_params(rng, cls, small=rng.random() < 0.7)
-            check_spec(out, cls, p, gen.bernoulli_stream(rng, rng.randint(20, 600 if thorough else 250)), runners)
+            xs = gen.bernoulli_stream(rng, rng.randint(20, 600 if thorough else 250))
+            if _ % 3 == 1:      # update ... reset() ... update: after a flag, in control, twice
+                for _k in range(rng.randint(1, 3)):
+                    xs.insert(rng.randint(1, len(xs)), "r")
+                xs += gen.bernoulli_stream(rng, rng.randint(20, 120))
+            check_spec(out, cls, p, xs, runners)
     for _ in range(3 * n_rand):
         p = gen.rand_params(rng, "RDDM")
         check_rddm(out, p, gen.bernoulli_stream(rng, rng.randint(20, 600 if thorough else 250)), runners)
